@@ -111,8 +111,9 @@ LRU = r'''
 from engine.hsupport import *
 LAST_DETAIL = None
 CONTENTS = [["a", 1, "x" * 4], ["b", 2, "y" * 4], {"k": [3, "z" * 4]}]
-# ops: 0-2 serialize content i ; 3-5 resolve the reference of content i ; 6 purge ; 7-9 mutate the caller's object i after it was serialized
-NOPS = 10
+# ops: 0-2 serialize content i ; 3-5 resolve the reference of content i ; 6 purge ; 7-9 mutate the caller's object i after it was serialized ;
+# 10 the shared backend is purged by ANOTHER process (this process' local cache is untouched)
+NOPS = 11
 
 def run_ops(kind, cache_size, ops, fresh_reader):
     global LAST_DETAIL
@@ -155,6 +156,9 @@ def run_ops(kind, cache_size, ops, fresh_reader):
         elif op == 6:
             st.purge(); refs.clear(); created_from.clear()
             log.append(("purge",))
+        elif op == 10:
+            st._purge(); refs.clear(); created_from.clear()       # what another app instance's purge does to the shared storage
+            log.append(("purge-by-other-process",))
         else:
             i = op - 7
             if isinstance(objs[i], list):
@@ -330,7 +334,7 @@ def run(ctx: Ctx) -> None:
     ])
     src = LRU
     conds = []
-    for a in range(10):
+    for a in range(11):
         src += LRUF.replace("__A__", str(a))
         conds.append(Cond(f"lru_{a}", "confirm", 900, keyfn=_key_from_replay))
     src += LRUX
@@ -345,7 +349,7 @@ def run(ctx: Ctx) -> None:
     ctx.functions_encoded += ["BaseClientDataStore.serialize/_maybe_store/resolve/_resolve_reference/_cache_deserialized/purge", "Mem/SQLite client data store _store/_retrieve/_purge",
                               "TaskId.key/from_key", "CallId.key/from_key", "Arguments.from_call", "Call.call_id/args_id", "compute_args_id (hunt only)"]
     ctx.bounds = {"routing": "content string len <= 3 (any Unicode), thresholds unbounded non-negative ints, both flags",
-                  "lru": "4 ops over 10 letters (serialize / resolve / purge / mutate-the-caller's-object over 3 contents), cache size 1..2 (+ size 0 separately), both stores, reader without local cache",
+                  "lru": "4 ops over 11 letters (serialize / resolve / purge / purge of the shared backend by another process / mutate-the-caller's-object over 3 contents), cache size 1..2 (+ size 0 separately), both stores, reader without local cache",
                   "ids": "module/function/args-id strings of length <= 3 / <= 2",
                   "spellings": "4 signatures (defaults, keyword-only, None default), positional prefix 0..4, every subset of omitted defaults",
                   "hunt": f"{budget}s per condition: two dicts of 2 entries, strings <= 2 chars, json.dumps replaced by a pure model validated on every code point below U+D800"}
